@@ -340,6 +340,12 @@ class PythonRegex(regex.Regex):
                 res.append(regex_list[i])
         return []
 
+    @staticmethod
+    def _replace_by_epsilon(regex_list, repeated):
+        """ Zero repetition: what was to be repeated becomes epsilon """
+        del regex_list[len(regex_list) - len(repeated):]
+        regex_list.append("$")
+
     def _add_repetition(self, regex_list):
         res = []
         idx = 0
@@ -351,12 +357,20 @@ class PythonRegex(regex.Regex):
             elif len(rep) == 2:
                 n_rep, end = rep
                 repeated = self._find_repeated_sequence(res)
+                if n_rep == 0:
+                    self._replace_by_epsilon(res, repeated)
                 for _ in range(n_rep - 1):
                     res.extend(repeated)
                 idx = end + 1
             elif len(rep) == 3:
                 min_rep, max_rep, end = rep
                 repeated = self._find_repeated_sequence(res)
+                if max_rep == 0:
+                    self._replace_by_epsilon(res, repeated)
+                elif min_rep == 0:
+                    # The occurrence already present is optional too
+                    res.append("?")
+                    min_rep = 1
                 for _ in range(min_rep - 1):
                     res.extend(repeated)
                 for _ in range(min_rep, max_rep):
